@@ -108,9 +108,12 @@ CHECKS = {
     text="Proof: C13_pm (each listed pair expands accordingly and its URI prefix is registered for it), C13_priority (first URI "
          "prefix canonical, rest synonyms in order), C13_reverse_canonical (the canonical URI prefix of a group is a member of "
          "minimal length, the rest are the synonyms), C13_jsonld (exactly which terms are taken), C13_upgrade_canonical / "
-         "C13_upgrade_recOK (lexicographically first prefix canonical; records pass the validators). Completeness of grouping, "
-         "dictionary-order independence of upgrade_prefix_map and file loading (str / Path) rest on the correspondence and on the "
-         "Lean checker comparing the implementation's records with the denoted ones.",
+         "C13_upgrade_recOK (lexicographically first prefix canonical; records pass the validators), C13_reverse_complete (no reverse-map "
+         "item dropped or invented, one record per CURIE prefix), C13_upgrade_ok / C13_upgrade_accepted (for every dictionary "
+         "upgrade_prefix_map succeeds, its records denote exactly the input items and a strict converter accepts them), "
+         "C13_upgrade_perm (dictionary order irrelevant); all three rest on groupInv_groupBy (the defaultdict grouping is complete "
+         "and order-preserving). File loading (str / Path) and from_rdflib rest on the correspondence and on the Lean checker "
+         "comparing the implementation's records with the denoted ones.",
     design="§7 C13", technique="Lean 4 theorem (per-loader denotation lemmas) + model/implementation correspondence incl. JSON files and rdflib graphs"),
  "C14": dict(
     text="Proof: C14_epm (a record written by _record_to_dict and read by Record(**dict) keeps prefix, URI prefix, both synonym "
